@@ -85,6 +85,10 @@ def plain(s):
     return _re.sub(r"@L\d+\+?|(?<=\))#\d+", "", s) if isinstance(s, str) else s
 
 
+# when set, memory reads are recorded as ("read", path, None, node) events (rules that bound the reads of a span)
+LOG_READS = False
+
+
 class _Ev:
     def __init__(self, fn, P):
         self.fn = fn
@@ -222,6 +226,8 @@ class _Ev:
             return lin.p_atom(nd["name"])
         if k in ("Member", "Subscript"):
             own = self.lv(p, j)
+            if LOG_READS:
+                p.events.append(("read", own, None, j))
             if own in p.env:
                 return p.env[own]
             if k == "Member" and not nd.get("arrow"):
@@ -233,6 +239,8 @@ class _Ev:
         if k == "Un":
             op = nd["op"]
             if op == "*":
+                if LOG_READS:
+                    p.events.append(("read", self.lv(p, j), None, j))
                 return p.get(self.lv(p, j))
             if op == "&":
                 sj = fn.strip(nd["ch"][0], casts=False)
